@@ -157,6 +157,12 @@ Case gen() {
   bool closed = G::coin();
   c.p["pattern"] = {gpPath(1, 8, Mp, true)};
   c.p["path"] = {gpPath(1, 8, M, closed)};
+  if (G::chance(2)) {
+    // larger operands: a few hundred parallelograms in one union (size-dependent behaviour)
+    c.p["pattern"] = {gpPath(8, 14, 20000, true)};
+    c.p["path"] = {gpPath(12, 24, 200000, closed)};
+    ST.count("large_operands");
+  }
   c.i["closed"] = closed;
   c.i["dp"] = G::chance(70) ? -1 : G::range(0, 4);
   if (G::chance(4)) c.p[G::coin() ? "pattern" : "path"] = {Path64()};   // empty operand: empty result
